@@ -167,6 +167,19 @@ def walkBack (g : Gen) : Nat → Nat → List Nat → List Nat
 def reconstructPath (M : Sys σ α) (key : σ → Nat) (g : Gen) (fp : Nat) : Option (Path σ α) :=
   fromFingerprints M key (walkBack g (g.length + 1) fp [])
 
+/-- a `generated` map together with, for each entry, the state path along its parent pointers, built
+the way the checkers build it: an initial state not yet in the map, or a successor (not yet in the
+map) of the last state of an entry's path, pointing to that entry. Newest entry first. -/
+inductive GenOK (M : Sys σ α) (key : σ → Nat) : List ((Nat × Option Nat) × List σ) → Prop
+  | nil : GenOK M key []
+  | root {gp : List ((Nat × Option Nat) × List σ)} {s : σ} :
+      GenOK M key gp → s ∈ M.init → Gen.get (gp.map (·.1)) (key s) = none →
+      GenOK M key (((key s, none), [s]) :: gp)
+  | child {gp : List ((Nat × Option Nat) × List σ)} {par : Option Nat} {path : List σ} {s t : σ} :
+      GenOK M key gp → ((key s, par), path) ∈ gp → path.getLast? = some s → t ∈ M.succAll s →
+      Gen.get (gp.map (·.1)) (key t) = none →
+      GenOK M key (((key t, some (key s)), path ++ [t]) :: gp)
+
 /-- what the Explorer reads from the checker -/
 structure Snapshot where
   done : Bool
